@@ -904,9 +904,11 @@ CHECKS["C11"]["text"] += (
     "_dup_enum_value / _bad_default; build_rejects_invalid_directive_def; build_rejects_unknown_root; build_rejects_ext_wrong_kind; "
     "build_rejects_ext_dup_field / _input_field / _enum_value / _union_member / _interface (member already in the target); "
     "build_rejects_ext_repeated_field / _enum_value / _input_field / _union_member (same member in two extension blocks or twice in one). "
-    "For the member and extension rules the conclusion is Rejected = build fails with a library class or the RecursionError of S1b (an "
-    "earlier definition of the document may fail first). corpus/C11/reject_rules.json: one document per theorem, checked against the real "
+    "For the member and root rules the class is SDLError or the RecursionError of S1b (Props/C11_reject_class.lean: "
+    "build_member_failure_class, build_rejects_invalid_type_def_class, _invalid_directive_def_class, _unknown_root_class); for the "
+    "extension rules the conclusion is Rejected = build fails with a library class or that RecursionError (another type may fail first "
+    "in the extension pass). corpus/C11/reject_rules.json: one document per theorem, checked against the real "
     "builder (direct oracle + correspondence) in every run.")
 CHECKS["C11"]["note"] += (
     " After audit 3: 'a root operation type must be an object type' is not a builder rule (Schema.validate, C13) and has no C11 theorem; "
-    "the exact error class per member rule and CoercesTo against C07's declarative coercion remain open.")
+    "the exact error class of the extension rules and CoercesTo against C07's declarative coercion remain open.")
